@@ -394,7 +394,7 @@ func embeddedClass(v reflect.Value) string {
 			continue
 		}
 		switch {
-		case f.Type.Kind() == reflect.Struct && hasPromotable(f.Type):
+		case f.Type.Kind() == reflect.Struct && hasPromotable(f.Type) && !v.Field(i).IsZero():
 			return "embedded-unexported-struct"
 		case f.Type.Kind() == reflect.Ptr && hasPromotable(f.Type) && !v.Field(i).IsNil():
 			cls = "embedded-unexported-ptr"
